@@ -38,6 +38,18 @@ collector closes the connection gracefully (its events must not be exported agai
 the re-send happens in all 4 repetitions), and 4..16 threads emitting at the same moment through one
 emitter (the discard counter must be exact, the exported rest is accounted as usual).
 
+Queue pressure (`run_queue_pressure`): one signal's endpoint rejects every request or refuses connections,
+so its worker sits in the retry back-off holding a batch, while more events of that signal than its queue
+holds (10 000) are emitted, followed by probes of that signal and of the healthy ones. Overflow loses
+events, it must never re-route them: every endpoint that received a vid must be the endpoint of the
+event's one signal (`C14:wrong-signal:queue-full:kind=..:got=..:want=..`), judged causally after the outage
+has ended and everything was flushed.
+
+Encoder rejection (`run_encoder_reject`): events with a property whose value fails to format part-way
+(Display / Debug / serde / sval) cannot be encoded by their own signal nor by the logs fallback: they are
+exported nowhere and `event_discarded` rises by exactly one each - exact accounting against N failing + M
+ordinary events, with every non-empty subset of signals (`C14:discard-counter:encoder-rejected:...`).
+
 The request path and the port it arrived on must name the same signal.
 A scenario whose `blocking_flush` returns false, or whose requests cannot be decoded, is
 inconclusive (encoding fidelity is C13's business).
@@ -340,12 +352,88 @@ struct Ev {
     /// selects the variant inside the class (which int, serde vs sval capture, ...)
     variant: u64,
     with_ids: bool,
+    /// a property whose value fails to format part-way (encoder-rejection section only)
+    bad: Option<Bad>,
 }
+
+/// How the failing value is captured, where it sits among the properties, and whether the template
+/// has a hole bound to it (so rendering the message fails too).
+#[derive(Clone, Copy, Debug, PartialEq, Eq, Hash)]
+struct Bad {
+    cap: BadCap,
+    pos: u8,
+    hole: bool,
+}
+
+#[derive(Clone, Copy, Debug, PartialEq, Eq, Hash)]
+enum BadCap {
+    CaptureDisplay,
+    FromDisplay,
+    FromDebug,
+    Serde,
+    Sval,
+}
+
+const BAD_CAPS: [BadCap; 5] = [BadCap::CaptureDisplay, BadCap::FromDisplay, BadCap::FromDebug, BadCap::Serde, BadCap::Sval];
+
+impl BadCap {
+    fn name(self) -> &'static str {
+        match self {
+            BadCap::CaptureDisplay => "fail-capture-display",
+            BadCap::FromDisplay => "fail-display",
+            BadCap::FromDebug => "fail-debug",
+            BadCap::Serde => "fail-serde",
+            BadCap::Sval => "fail-sval",
+        }
+    }
+}
+
+const FAIL_PARTIAL: &str = "partial-output-before-the-error";
+
+/// Writes some output, then fails (the same shape as C13's failing values): `Display` / `Debug` return
+/// `Err` after writing text, `Serialize` / `sval::Value` fail after emitting part of a sequence.
+struct FailingVal;
+
+impl std::fmt::Display for FailingVal {
+    fn fmt(&self, f: &mut std::fmt::Formatter<'_>) -> std::fmt::Result {
+        f.write_str(FAIL_PARTIAL)?;
+        Err(std::fmt::Error)
+    }
+}
+
+impl std::fmt::Debug for FailingVal {
+    fn fmt(&self, f: &mut std::fmt::Formatter<'_>) -> std::fmt::Result {
+        f.write_str(FAIL_PARTIAL)?;
+        Err(std::fmt::Error)
+    }
+}
+
+impl serde::Serialize for FailingVal {
+    fn serialize<S: serde::Serializer>(&self, s: S) -> Result<S::Ok, S::Error> {
+        use serde::ser::SerializeSeq;
+        let mut q = s.serialize_seq(Some(3))?;
+        q.serialize_element(FAIL_PARTIAL)?;
+        Err(serde::ser::Error::custom("serialization fails part-way"))
+    }
+}
+
+impl sval::Value for FailingVal {
+    fn stream<'sval, S: sval::Stream<'sval> + ?Sized>(&'sval self, stream: &mut S) -> sval::Result {
+        stream.seq_begin(Some(3))?;
+        stream.seq_value_begin()?;
+        stream.value(FAIL_PARTIAL)?;
+        stream.seq_value_end()?;
+        sval::error()
+    }
+}
+
+static FAILING: FailingVal = FailingVal;
 
 impl Ev {
     fn class_json(&self) -> Json {
         json!({"vid": self.vid, "kind": self.kind.name(), "extent": self.extent.name(), "metric_value": self.val.name(),
-               "metric_agg": self.agg, "variant": self.variant, "with_trace_ids": self.with_ids})
+               "metric_agg": self.agg, "variant": self.variant, "with_trace_ids": self.with_ids,
+               "failing_value": self.bad.map(|b| format!("{}:{}:{}", b.cap.name(), ["first", "middle", "last"][b.pos as usize % 3], if b.hole { "hole" } else { "no-hole" }))})
     }
 }
 
@@ -477,8 +565,24 @@ fn emit_one(otlp: &emit_otlp::Otlp, ev: &Ev, st: &Store) {
     if v / 8 % 3 == 0 {
         props.push(("other", Value::from("x")));
     }
+    if let Some(bad) = ev.bad {
+        let value = match bad.cap {
+            BadCap::CaptureDisplay => Value::capture_display(&FAILING),
+            BadCap::FromDisplay => Value::from_display(&FAILING),
+            BadCap::FromDebug => Value::from_debug(&FAILING),
+            BadCap::Serde => Value::from_serde(&FAILING),
+            BadCap::Sval => Value::from_sval(&FAILING),
+        };
+        let at = match bad.pos % 3 {
+            0 => 0,
+            1 => props.len() / 2,
+            _ => props.len(),
+        };
+        props.insert(at, ("bad", value));
+    }
     let mdl = emit::Path::new_raw(if v / 16 % 2 == 0 { "verif::c14" } else { "verif::c14::other" });
-    let tpl = emit::Template::literal_ref(&name);
+    let with_hole = [emit::template::Part::text_ref(&name), emit::template::Part::text_ref(" failing "), emit::template::Part::hole_ref("bad")];
+    let tpl = if ev.bad.map(|b| b.hole).unwrap_or(false) { emit::Template::new_ref(&with_hole) } else { emit::Template::literal_ref(&name) };
     let a = ts(ev.vid % 100_000, 5);
     let b = ts(ev.vid % 100_000 + 3, 7);
     let extent: Option<emit::Extent> = match ev.extent {
@@ -515,7 +619,7 @@ fn gen_event(g: &mut Rng, vid: u64, k: u64) -> Ev {
         let val = if kind.is_metric() && g.chance(1, 5) { *g.pick(&[ValC::BigInt, ValC::BigIntSeq]) } else { *g.pick(&VALS) };
         (kind, *g.pick(&EXTENTS), val)
     };
-    Ev { vid, kind, extent, val, agg: *g.pick(&AGGS), variant: g.next(), with_ids: g.chance(1, 3) }
+    Ev { vid, kind, extent, val, agg: *g.pick(&AGGS), variant: g.next(), with_ids: g.chance(1, 3), bad: None }
 }
 
 struct Scenario {
@@ -1387,6 +1491,474 @@ fn run_concurrent(r: &mut Report, seed: u64, case: u64, thorough: bool) {
     drop(col);
 }
 
+// ---------------------------------------------------------------------------
+// one signal's queue overflows while its destination is unavailable
+// ---------------------------------------------------------------------------
+
+/// Capacity of each signal's channel inside emit_otlp (`emit_batcher::bounded(10_000)`).
+const QUEUE_CAPACITY: u64 = 10_000;
+
+fn kind_family(ev: &Ev) -> &'static str {
+    if ev.kind.is_span() {
+        "span"
+    } else if ev.kind.is_metric() {
+        "metric"
+    } else {
+        "other"
+    }
+}
+
+/// Classed events (see `gen_event`) whose one signal under `subset` is settled by the statement, by signal.
+fn pools_by_signal(g: &mut Rng, subset: u8, per_signal: usize) -> HashMap<Signal, Vec<Ev>> {
+    let mut pools: HashMap<Signal, Vec<Ev>> = HashMap::new();
+    let configured: Vec<Signal> = Signal::ALL.into_iter().filter(|s| subset & s.bit() != 0).collect();
+    let mut k = 0u64;
+    while configured.iter().any(|s| pools.get(s).map(|p| p.len()).unwrap_or(0) < per_signal) && k < 200_000 {
+        let ev = gen_event(g, 0, 1_000 + k);
+        k += 1;
+        if let Want::Exactly(Some(sig)) = want(&ev, subset) {
+            let pool = pools.entry(sig).or_default();
+            if pool.len() < per_signal {
+                pool.push(ev);
+            }
+        }
+    }
+    pools
+}
+
+/// One signal's destination is unavailable - its collector endpoint rejects every request (503 / grpc-status
+/// 14) or refuses connections - so the signal's worker sits in the retry back-off holding a batch. Meanwhile
+/// MORE events of that signal than its queue holds (10 000) are emitted, so the queue overflows (the emitter's
+/// `queue_full_truncated` counter says whether it really did), followed by probe events of that signal and
+/// of the healthy ones. Overflow loses events (C09's business); it must never re-route them: whatever
+/// endpoint receives an event's vid - in any request, acknowledged or not - must be the endpoint of the one
+/// signal the routing table gives it. The verdict is causal (which endpoint received which vid): the outage
+/// ends, everything is flushed, and the collector's log is read.
+fn run_queue_pressure(r: &mut Report, seed: u64, case: u64) {
+    r.eval();
+    let mut g = Rng::stream(seed, &[14, 7, case]);
+    // (subset, victim): every subset of two or three signals x each member
+    const PAIRS: [(u8, Signal); 9] = [
+        (3, Signal::Traces),
+        (7, Signal::Metrics),
+        (3, Signal::Logs),
+        (5, Signal::Metrics),
+        (7, Signal::Traces),
+        (5, Signal::Logs),
+        (6, Signal::Traces),
+        (6, Signal::Metrics),
+        (7, Signal::Logs),
+    ];
+    let (subset, victim) = PAIRS[(case % 9) as usize];
+    let refuse = (case / 9 + case % 9) % 2 == 1;
+    let transport = Transport::ALL[((case / 18 + case % 9 + seed) % 3) as usize];
+    let gzip = (case / 9 + case + seed) % 2 == 0;
+    let tname = transport.name();
+    let grpc = transport == Transport::Grpc;
+    let mode = if refuse { "refuses-connections" } else { "rejects-every-request" };
+    let configured: Vec<Signal> = Signal::ALL.into_iter().filter(|s| subset & s.bit() != 0).collect();
+    let case_json = |detail: Json| json!({"seed": seed, "case": case, "kind": "queue-pressure", "transport": tname, "gzip": gzip, "subset": subset_name(subset),
+        "unavailable": victim.name(), "mode": mode, "detail": detail});
+    let inconclusive = |r: &mut Report, why: String| {
+        r.observe("queue-full:scenarios-inconclusive", 1);
+        r.inconclusive(format!("queue-pressure scenario: {}", why));
+    };
+
+    let cfgs = configured.iter().map(|s| EndpointCfg { signal: *s, wire: transport.wire(), listen: !(refuse && *s == victim), script: vec![] }).collect();
+    let col = Collector::start(cfgs);
+    let reject = if grpc { Decision::GrpcStatus(14, GrpcForm::Trailers) } else { Decision::Status(503) };
+    if !refuse {
+        col.set_repeat(victim, Some(reject));
+    }
+    let otlp = build_otlp(&col, transport, gzip, subset);
+    let discarded_before = otlp.metric_source().event_discarded();
+    let st = new_store();
+    let pools = pools_by_signal(&mut g, subset, 12);
+    if configured.iter().any(|s| pools.get(s).map(|p| p.is_empty()).unwrap_or(true)) {
+        inconclusive(r, "no event classes found for a configured signal".into());
+        return;
+    }
+    let mut sent: Vec<Ev> = Vec::new();
+    let mut vid = 3_000_000_000 + case * 1_000_000;
+    let mut send = |sig: Signal, g: &mut Rng, sent: &mut Vec<Ev>| {
+        let mut ev = g.pick(&pools[&sig]).clone();
+        ev.vid = vid;
+        vid += 1;
+        emit_one(&otlp, &ev, &st);
+        sent.push(ev);
+    };
+
+    // ---- the victim's worker takes a batch and fails with it: from now on it holds that batch in its back-off ----
+    send(victim, &mut g, &mut sent);
+    let t0 = std::time::Instant::now();
+    let stuck = loop {
+        let failed_once = if refuse { otlp.metric_source().transport_conn_failed() >= 1 } else { col.records().iter().any(|rec| rec.endpoint == victim && rec.responded.is_some()) };
+        if failed_once {
+            break true;
+        }
+        if t0.elapsed() > Duration::from_secs(15) {
+            break false;
+        }
+        std::thread::sleep(Duration::from_millis(1));
+    };
+    if !stuck {
+        inconclusive(r, format!("the first attempt on the unavailable {} endpoint was not seen within 15 s", victim.name()));
+        return;
+    }
+
+    // ---- more events of the victim's signal than its queue holds, a few for the healthy signals in between ----
+    let n_flood = QUEUE_CAPACITY + 1 + g.below(if case % 4 == 3 { QUEUE_CAPACITY } else { 2_500 });
+    let others: Vec<Signal> = configured.iter().copied().filter(|s| *s != victim).collect();
+    for k in 0..n_flood {
+        send(victim, &mut g, &mut sent);
+        if k % 397 == 396 {
+            send(*g.pick(&others), &mut g, &mut sent);
+        }
+    }
+    // ---- probes: the victim's kind again, and the others (plain log events among them when logs is configured) ----
+    for _ in 0..(20 + g.below(40)) {
+        let sig = if g.bool() { victim } else { *g.pick(&others) };
+        send(sig, &mut g, &mut sent);
+    }
+    let truncated = emitter_metric(&otlp, &format!("otlp_{}_queue_full_truncated", victim.name()));
+    let attempts_during = col.records().iter().filter(|rec| rec.endpoint == victim).count() + otlp.metric_source().transport_conn_failed();
+    r.observe("queue-full:events-emitted", sent.len() as u64);
+    r.observe("queue-full:attempts-on-the-unavailable-endpoint-while-flooding", attempts_during as u64);
+
+    // ---- the outage ends; everything that is still queued goes out ----
+    if refuse {
+        col.listen(victim);
+    } else {
+        col.set_repeat(victim, None);
+    }
+    if !otlp.blocking_flush(Duration::from_secs(90)) {
+        inconclusive(r, "blocking_flush returned false (90 s) after the outage had ended".into());
+        // the emitter may still be retrying: keep its collector's ports reserved for the rest of the process, so
+        // that no other scenario's collector is handed one of them and sees this emitter's requests
+        std::mem::forget(otlp);
+        std::mem::forget(col);
+        return;
+    }
+    col.settle();
+    let records = col.records();
+    let discarded = otlp.metric_source().event_discarded() - discarded_before;
+    let ms = otlp.metric_source();
+    let acks_written = records.iter().filter(|rec| rec.acked()).count();
+    let acks_seen = ms.http_batch_sent() + ms.grpc_batch_sent();
+    r.observe("queue-full:requests-recorded", records.len() as u64);
+    r.observe("queue-full:scenarios-decided", 1);
+    r.observe(&format!("queue-full:unavailable={}:{}", victim.name(), mode), 1);
+    if truncated > 0 {
+        r.observe("queue-full:scenarios-in-which-the-queue-overflowed", 1);
+        r.observe("queue-full:overflow-truncations", truncated);
+        r.nontrivial(&("queue-pressure", subset, victim, refuse, tname, gzip));
+    } else {
+        r.observe("queue-full:scenarios-without-overflow(worker-drained-the-queue-in-time)", 1);
+    }
+    if discarded != 0 {
+        // the statement counts a discard when no configured signal can take the event; a full queue is not that,
+        // but the statement does not forbid counting it either: recorded, not judged
+        r.observe("queue-full:event_discarded-rose-although-every-event-has-a-configured-signal(unjudged)", discarded as u64);
+    }
+
+    // vid -> (endpoint the request arrived at, acknowledged?) for every request that could be read
+    let mut carried: HashMap<u64, Vec<(Signal, bool)>> = HashMap::new();
+    for rec in &records {
+        if rec.body.is_none() || (rec.peer_gone && rec.note.is_some()) {
+            continue;
+        }
+        let Some(ps) = rec.path_signal() else { continue };
+        if ps != rec.endpoint {
+            r.violation(
+                &format!("C14:path-endpoint-mismatch:path={}:endpoint={}", ps.name(), rec.endpoint.name()),
+                &format!("a request for {} arrived at the endpoint configured for {}", rec.path, rec.endpoint.name()),
+                case_json(rec.brief()),
+            );
+        }
+        match rec.items() {
+            Ok(items) => {
+                for v in items.iter().filter_map(|i| i.vid()) {
+                    carried.entry(v).or_default().push((ps, rec.acked()));
+                }
+            }
+            Err(e) => {
+                inconclusive(r, format!("undecodable {} request ({}): {}", ps.name(), tname, e));
+                return;
+            }
+        }
+    }
+    let mut wrong = 0u64;
+    let (mut victim_delivered, mut victim_lost) = (0u64, 0u64);
+    for ev in &sent {
+        let Want::Exactly(Some(want_sig)) = want(ev, subset) else { continue };
+        let got = carried.remove(&ev.vid).unwrap_or_default();
+        // ---- the verdict: every endpoint that received this vid is the endpoint of its one signal ----
+        if let Some((other, _)) = got.iter().find(|(s, _)| *s != want_sig) {
+            wrong += 1;
+            let also = got.iter().any(|(s, _)| *s == want_sig);
+            r.violation(
+                &format!("C14:wrong-signal:queue-full:kind={}:got={}:want={}", kind_family(ev), other.name(), want_sig.name()),
+                &format!(
+                    "the {} endpoint {} and more than {} events were queued for it ({} overflow truncations); event v{} ({}, extent {}) belongs to {} but a request on the {} endpoint carries it{}",
+                    victim.name(),
+                    mode.replace('-', " "),
+                    QUEUE_CAPACITY,
+                    truncated,
+                    ev.vid,
+                    ev.kind.name(),
+                    ev.extent.name(),
+                    want_sig.name(),
+                    other.name(),
+                    if also { " as well" } else { " instead" }
+                ),
+                case_json(json!({"event": ev.class_json(), "received_by": got.iter().map(|(s, a)| json!([s.name(), if *a { "acknowledged" } else { "not acknowledged" }])).collect::<Vec<_>>(),
+                    "emitted_as_number": ev.vid - (3_000_000_000 + case * 1_000_000), "flood": n_flood, "overflow_truncations": truncated})),
+            );
+            if wrong >= 3 {
+                break;
+            }
+            continue;
+        }
+        let acked = got.iter().filter(|(_, a)| *a).count();
+        if acked > 1 && acks_written == acks_seen {
+            r.violation(
+                &format!("C14:exported-more-than-once:queue-full:kind={}:on={}", kind_family(ev), want_sig.name()),
+                &format!("event v{} is in {} acknowledged requests on the {} endpoint", ev.vid, acked, want_sig.name()),
+                case_json(json!({"event": ev.class_json(), "acknowledged_requests": acked})),
+            );
+            break;
+        }
+        if want_sig == victim {
+            // lost to the overflow, or delivered once the outage was over: both fine here
+            if acked >= 1 {
+                victim_delivered += 1;
+            } else {
+                victim_lost += 1;
+            }
+        } else if acked == 0 {
+            // a healthy signal, never failing, below its capacity, flush true
+            r.violation(
+                &format!("C14:not-exported:queue-full:kind={}:want={}:unavailable={}", kind_family(ev), want_sig.name(), victim.name()),
+                &format!("event v{} belongs to the healthy {} signal but is in no acknowledged request although flush returned true (the {} endpoint was unavailable meanwhile)", ev.vid, want_sig.name(), victim.name()),
+                case_json(json!({"event": ev.class_json(), "received_by": got.iter().map(|(s, a)| json!([s.name(), *a])).collect::<Vec<_>>()})),
+            );
+            break;
+        } else {
+            r.observe("queue-full:healthy-signal-events-accounted", 1);
+        }
+    }
+    r.observe("queue-full:unavailable-signal-events-delivered-after-the-outage", victim_delivered);
+    r.observe("queue-full:unavailable-signal-events-lost-to-the-overflow", victim_lost);
+    // (requests of some other scenario's emitter, still retrying towards a port this collector was handed
+    // afterwards, are a harness matter and not a verdict)
+    let base = 3_000_000_000 + case * 1_000_000;
+    if carried.keys().any(|v| !(base..base + 1_000_000).contains(v)) {
+        inconclusive(r, "a collector received requests that were not sent by its scenario's emitter".into());
+        carried.retain(|v, _| (base..base + 1_000_000).contains(v));
+    }
+    if wrong == 0 && !carried.is_empty() {
+        let extra: Vec<u64> = carried.keys().copied().take(5).collect();
+        r.violation(
+            &format!("C14:unknown-vid-exported:queue-full:{}", tname),
+            &format!("records with vids that were never emitted in this scenario: {:?}", extra),
+            case_json(json!({"vids": extra})),
+        );
+    }
+    if r.wants_sample() && case < 1 {
+        let cj = case_json(json!({"events": sent.len(), "flood": n_flood, "overflow_truncations": truncated, "requests": records.len(),
+            "delivered_after_outage": victim_delivered, "lost_to_overflow": victim_lost}));
+        r.sample(move || cj);
+    }
+    drop(otlp);
+    drop(col);
+}
+
+// ---------------------------------------------------------------------------
+// a configured signal's encoder rejects the event: nothing exported, one discard counted
+// ---------------------------------------------------------------------------
+
+/// N events carry a property whose value fails to format part-way (Display / Debug / serde / sval; first,
+/// middle or last property; sometimes bound to a template hole), M ordinary events in between. An event whose
+/// value cannot be written cannot be encoded by ANY signal - its own or the logs fallback - so "no configured
+/// signal can take the event": it is exported nowhere and `event_discarded` rises by exactly one. Exact
+/// accounting: counter delta == (events with a failing value that are absent from every endpoint) + (events the
+/// routing table drops because logs is not configured). Ordinary events are accounted as in the routing section.
+fn run_encoder_reject(r: &mut Report, seed: u64, case: u64) {
+    r.eval();
+    let mut g = Rng::stream(seed, &[14, 8, case]);
+    // logs configured (the fallback that cannot encode the event) four times out of seven
+    let subset = [1u8, 3, 5, 7, 2, 4, 6][(case % 7) as usize];
+    let transport = Transport::ALL[(case / 7 % 3) as usize];
+    let gzip = case / 21 % 2 == 0;
+    let tname = transport.name();
+    let case_json = |detail: Json| json!({"seed": seed, "case": case, "kind": "encoder-reject", "transport": tname, "gzip": gzip, "subset": subset_name(subset), "detail": detail});
+    let cfgs = Signal::ALL.into_iter().filter(|s| subset & s.bit() != 0).map(|s| EndpointCfg { signal: s, wire: transport.wire(), listen: true, script: vec![] }).collect();
+    let col = Collector::start(cfgs);
+    let otlp = build_otlp(&col, transport, gzip, subset);
+    let before = otlp.metric_source().event_discarded();
+    let st = new_store();
+    let n = 60 + g.below(240);
+    let mut events: Vec<Ev> = Vec::new();
+    for k in 0..n {
+        let mut ev = gen_event(&mut g, 4_000_000_000 + case * 100_000 + k, 1_000 + k);
+        // failing values on every kind family: the classes are drawn, one event in three (and the first few) fails
+        if k < 5 || g.chance(1, 3) {
+            ev.bad = Some(Bad { cap: BAD_CAPS[((k + case) % 5) as usize], pos: g.below(3) as u8, hole: g.chance(1, 5) });
+        }
+        events.push(ev);
+    }
+    let mut panicked = false;
+    for ev in &events {
+        if let Err(msg) = catch(|| emit_one(&otlp, ev, &st)) {
+            panicked = true;
+            r.violation(
+                &format!("C14:panic-in-emit:encoder-rejected:kind={}:{}", kind_family(ev), ev.bad.map(|b| b.cap.name()).unwrap_or("ordinary")),
+                &format!("Otlp::emit panicked: {}", msg),
+                case_json(ev.class_json()),
+            );
+        }
+    }
+    r.observe("encoder-rejected:events-emitted", events.len() as u64);
+    if !otlp.blocking_flush(Duration::from_secs(60)) {
+        r.observe("encoder-rejected:scenarios-inconclusive", 1);
+        r.inconclusive("encoder-rejection scenario: blocking_flush returned false (60 s)");
+        return;
+    }
+    let discarded = (otlp.metric_source().event_discarded() - before) as u64;
+    col.settle();
+    let records = col.records();
+    let mut seen: HashMap<u64, Vec<Signal>> = HashMap::new();
+    for rec in &records {
+        let Some(ps) = rec.path_signal() else { continue };
+        match rec.items() {
+            Ok(items) => {
+                for v in items.iter().filter_map(|i| i.vid()) {
+                    seen.entry(v).or_default().push(ps);
+                }
+            }
+            Err(e) => {
+                // (a half-written attribute makes the whole request undecodable: C13's finding 97a5ba0)
+                r.observe("encoder-rejected:scenarios-inconclusive", 1);
+                r.inconclusive(format!("encoder-rejection scenario: undecodable {} request ({}): {}", ps.name(), tname, e));
+                return;
+            }
+        }
+    }
+    if panicked {
+        return;
+    }
+    r.observe("encoder-rejected:scenarios-decided", 1);
+    let mut expected = 0u64;
+    let mut failing_absent: HashMap<String, u64> = HashMap::new();
+    let mut failing_total = 0u64;
+    let mut routing_discards = 0u64;
+    for ev in &events {
+        let got = seen.remove(&ev.vid).unwrap_or_default();
+        let w = want(ev, subset);
+        let names = |v: &[Signal]| v.iter().map(|s| s.name()).collect::<Vec<_>>().join("+");
+        if got.len() > 1 {
+            r.violation(
+                &format!("C14:exported-more-than-once:encoder-rejected:kind={}:got={}", kind_family(ev), names(&got)),
+                &format!("event v{} ({}) was exported {} times ({})", ev.vid, if ev.bad.is_some() { "with a failing value" } else { "ordinary" }, got.len(), names(&got)),
+                case_json(ev.class_json()),
+            );
+            continue;
+        }
+        let got1 = got.first().copied();
+        let admissible = |s: Option<Signal>| match w {
+            Want::Exactly(x) => s == x,
+            Want::MetricsOr(fallback) => s == Some(Signal::Metrics) || s == fallback,
+        };
+        match ev.bad {
+            Some(bad) => {
+                failing_total += 1;
+                let class = format!("kind={}:falls-to={}:{}{}", kind_family(ev), match w { Want::Exactly(x) | Want::MetricsOr(x) => x.map(|s| s.name()).unwrap_or("none") }, bad.cap.name(), if bad.hole { ":hole" } else { "" });
+                r.nontrivial(&("encoder-reject", subset, tname, kind_family(ev), bad.cap, bad.hole, format!("{:?}", w)));
+                match got1 {
+                    None => {
+                        // exported nowhere: exactly one discard is owed for it
+                        expected += 1;
+                        *failing_absent.entry(class).or_insert(0) += 1;
+                    }
+                    Some(s) => {
+                        // an emitter that leaves the failing attribute out and exports the rest has "taken" the event
+                        // (record fidelity is C13's); it must still be the right endpoint, and it owes no discard
+                        r.observe("encoder-rejected:failing-events-exported-anyway", 1);
+                        r.observe(&format!("encoder-rejected:failing-events-exported-anyway:{}:via={}", class, s.name()), 1);
+                        if !admissible(Some(s)) && !(s == Signal::Logs && subset & Signal::Logs.bit() != 0) {
+                            r.violation(
+                                &format!("C14:wrong-signal:encoder-rejected:kind={}:got={}", kind_family(ev), s.name()),
+                                &format!("event v{} with a failing value was exported through {}, which the routing table does not allow ({:?})", ev.vid, s.name(), w),
+                                case_json(ev.class_json()),
+                            );
+                        }
+                    }
+                }
+            }
+            None => {
+                if got1.is_none() && admissible(None) {
+                    expected += 1;
+                    routing_discards += 1;
+                } else if !admissible(got1) {
+                    r.violation(
+                        &format!("C14:wrong-signal:encoder-rejected:neighbour:kind={}:got={}", kind_family(ev), got1.map(|s| s.name()).unwrap_or("none")),
+                        &format!("ordinary event v{}, emitted between events whose values fail to format, was received by {} (routing table: {:?})", ev.vid, got1.map(|s| s.name()).unwrap_or("no endpoint"), w),
+                        case_json(ev.class_json()),
+                    );
+                } else {
+                    r.observe("encoder-rejected:ordinary-events-accounted", 1);
+                }
+            }
+        }
+    }
+    let absent: u64 = failing_absent.values().sum();
+    r.observe("encoder-rejected:failing-events", failing_total);
+    r.observe("encoder-rejected:failing-events-exported-nowhere", absent);
+    r.observe("encoder-rejected:routing-discards-expected", routing_discards);
+    r.observe("encoder-rejected:discards-expected", expected);
+    r.observe("encoder-rejected:discards-counted", discarded);
+    if subset & Signal::Logs.bit() != 0 {
+        r.observe("encoder-rejected:discards-expected-with-logs-configured", expected);
+        r.observe("encoder-rejected:discards-counted-with-logs-configured", discarded);
+    }
+    if discarded != expected {
+        let mut classes: Vec<(String, u64)> = failing_absent.into_iter().collect();
+        classes.sort();
+        r.violation(
+            &format!(
+                "C14:discard-counter:encoder-rejected:logs={}:subset={}:{}",
+                if subset & Signal::Logs.bit() != 0 { "configured" } else { "not-configured" },
+                subset_name(subset),
+                if discarded < expected { "counted-less" } else { "counted-more" }
+            ),
+            &format!(
+                "{} events carried a value that fails to format part-way and were exported nowhere, {} more have no configured signal; event_discarded rose by {} instead of {} (signals configured: {})",
+                absent,
+                routing_discards,
+                discarded,
+                expected,
+                subset_name(subset)
+            ),
+            case_json(json!({"events": events.len(), "failing": failing_total, "failing_exported_nowhere": absent, "routing_discards": routing_discards, "counted": discarded, "expected": expected,
+                "failing_exported_nowhere_by_class": classes.iter().map(|(c, n)| json!([c, n])).collect::<Vec<_>>()})),
+        );
+    }
+    if !seen.is_empty() {
+        let extra: Vec<u64> = seen.keys().copied().take(5).collect();
+        r.violation(
+            &format!("C14:unknown-vid-exported:encoder-rejected:{}", tname),
+            &format!("records with vids that were never emitted in this scenario: {:?}", extra),
+            case_json(json!({"vids": extra})),
+        );
+    }
+    if r.wants_sample() && case < 1 {
+        let cj = case_json(json!({"events": events.len(), "failing": failing_total, "exported_nowhere": absent, "discards_counted": discarded, "requests": records.len()}));
+        r.sample(move || cj);
+    }
+    drop(otlp);
+    drop(col);
+}
+
 fn main() {
     let args = Args::parse();
     let mut r = Report::new(
@@ -1431,6 +2003,22 @@ fn main() {
                 }
                 std::process::exit(r.finish());
             }
+            Some("queue-pressure") => {
+                emit_batcher::verif::set_delay_divisor(20);
+                emit_otlp::verif::set_request_timeout(Some(Duration::from_secs(10)));
+                for i in 0..2 {
+                    run_queue_pressure(&mut r, s, c);
+                    r.nontrivial(&("replay-run", i));
+                }
+                std::process::exit(r.finish());
+            }
+            Some("encoder-reject") => {
+                for i in 0..2 {
+                    run_encoder_reject(&mut r, s, c);
+                    r.nontrivial(&("replay-run", i));
+                }
+                std::process::exit(r.finish());
+            }
             Some("concurrent") => {
                 for i in 0..2 {
                     run_concurrent(&mut r, s, c, args.thorough());
@@ -1446,19 +2034,28 @@ fn main() {
         std::process::exit(r.finish());
     }
 
+    let section = args.get("section").unwrap_or("all").to_string();
+    let only = |name: &str| section == "all" || section == name;
     // 8 subsets x 3 transports x gzip on/off = 48 cases per round
-    let n = args.n(192, 7200);
+    let n = if only("routing") { args.n(192, 7200) } else { 0 };
     par_cases(&mut r, &args, n, |i, r| {
         let sc = generate(seed, i, n_events);
         run(r, &sc, seed);
     });
-    r.exhaustive("all eight subsets of configured signals x {HTTP+JSON, HTTP+protobuf, gRPC} x gzip on/off");
+    if n > 0 {
+        r.exhaustive("all eight subsets of configured signals x {HTTP+JSON, HTTP+protobuf, gRPC} x gzip on/off");
+    }
+
+    // A configured signal's encoder rejects the event (a value that fails to format part-way): exported nowhere,
+    // one discard counted. 7 non-empty subsets x 3 transports x gzip = 42 per round; no hooks, nothing fails.
+    let n_reject = if only("encoder-reject") { args.n(42, 840) } else { 0 };
+    par_cases(&mut r, &args, n_reject, |i, r| run_encoder_reject(r, seed, i));
 
     // Split batches under failures. The hooks are process-global: they are only switched on now that the
     // fault-free section is over (a shortened request timeout there could turn load into duplicates).
     emit_batcher::verif::set_delay_divisor(100);
     emit_otlp::verif::set_request_timeout(Some(Duration::from_millis(300)));
-    let n_split = args.n(54, 756);
+    let n_split = if only("split") { args.n(54, 756) } else { 0 };
     par_cases(&mut r, &args, n_split * 16, |i, r| {
         // one scenario per block of `par_cases`: they spend their time waiting
         if i % 16 == 0 {
@@ -1469,7 +2066,7 @@ fn main() {
     // A 2xx head, then the connection is closed. A generous request timeout: a client-side timeout
     // before the head is read must be implausible here.
     emit_otlp::verif::set_request_timeout(Some(Duration::from_secs(10)));
-    let n_head_close = args.n(32, 320);
+    let n_head_close = if only("head-close") { args.n(32, 320) } else { 0 };
     par_cases(&mut r, &args, n_head_close * 16, |i, r| {
         if i % 16 == 0 {
             run_head_close(r, seed, i / 16)
@@ -1478,16 +2075,27 @@ fn main() {
 
     // The collector closes idle keep-alive connections between batches (3 transports x gzip x close / reset x
     // {L, T, M, LTM} = 48 per round).
-    let n_idle = args.n(48, 480);
+    let n_idle = if only("idle-close") { args.n(48, 480) } else { 0 };
     par_cases(&mut r, &args, n_idle * 16, |i, r| {
         if i % 16 == 0 {
             run_idle_close(r, seed, i / 16)
         }
     });
 
+    // One signal's destination is unavailable while more than its queue's capacity is emitted for it (9 (subset,
+    // unavailable member) pairs x rejecting / refusing = 18 per round; transport and gzip rotate with case and seed).
+    // A slower back-off than above, so that the worker really sits on its batch while the queue overflows.
+    emit_batcher::verif::set_delay_divisor(20);
+    let n_pressure = if only("queue-pressure") { args.n(18, 216) } else { 0 };
+    par_cases(&mut r, &args, n_pressure * 16, |i, r| {
+        if i % 16 == 0 {
+            run_queue_pressure(r, seed, i / 16)
+        }
+    });
+
     // Many threads emitting at once (each scenario uses up to 16 threads itself: one after the other).
     let thorough = args.thorough();
-    for i in 0..args.n(11, 132) {
+    for i in 0..(if only("concurrent") { args.n(11, 132) } else { 0 }) {
         run_concurrent(&mut r, seed, i, thorough);
     }
     std::process::exit(r.finish());
